@@ -181,6 +181,9 @@ func C06(rep *ev.Reporter, tier string) {
 	sets["twoCounters"] = func() rs {
 		return rs{grl.R("a", grl.Sal(5), "F.I < 1", "F.I = F.I + 1"), grl.R("b", nil, "F.I2 < 2", "F.I2 = F.I2 + 1")}
 	}
+	sets["changedGetter"] = func() rs {
+		return rs{grl.R("g", nil, "F.GetI() < 2", "F.Bump()", `Changed("F.GetI()")`, `Forget("F.Bump()")`), grl.R("b", grl.Sal(-1), "F.I2 < 1", "F.I2 = F.I2 + 1")}
+	}
 	sets["condError"] = func() rs {
 		return rs{grl.R("a", nil, "F.P.V == 0", "F.I = 1"), grl.R("b", nil, "F.I2 < 2", "F.I2 = F.I2 + 1")}
 	}
@@ -194,7 +197,7 @@ func C06(rep *ev.Reporter, tier string) {
 			for mc := uint64(0); mc <= maxMax; mc++ {
 				for nl := 0; nl <= 3; nl++ {
 					emit(Case{ID: fmt.Sprintf("c06/%s/max%d/l%d", name, mc, nl), Rules: sets[name](), Worlds: []func() *ref.World{c06World}, WorldNames: []string{"zero"},
-						Opts: hx.RunOpts{MaxCycle: mc, ExtraListeners: nl}})
+						Opts: hx.RunOpts{MaxCycle: mc, ExtraListeners: nl}, ReuseDC: true})
 				}
 			}
 		}
@@ -242,7 +245,7 @@ func C06(rep *ev.Reporter, tier string) {
 	rep.Coverage["zero_listener_runs_compared"] = plainChecked
 	c06Nested(rep, sets, maxMax)
 	c06Interrupted(rep, sets)
-	rep.Coverage["rule"] = "rule sets {never satisfied, fires n=1..3 times, loops forever (1 and 2 rules), Complete at firing n, action error at firing n, retract chain, mixed, failing condition} x MaxCycle 0..5 (thorough 0..8) x 1..4 listeners (+ a listener-free differential run) x every rule order per cycle. Oracle: the engine model followed along the observed trace decides, per cycle, whether the run must continue, fire, end with nil, with the limit error or with an action error; per-listener protocol automaton (consecutive numbering, each active rule exactly once, <=1 execution of a same-cycle candidate). Termination horizon is a callback count, not a clock. Non-trivial: a run that reaches the budget boundary with candidates left. Third family (interrupted runs): every rule set under every static order with the context ending (Canceled / DeadlineExceeded) at every poll index: reported statuses stay truthful unless the run ends with the context's error, nil only at real quiescence, an announced execution runs its actions. Second family (overlapping runs on ONE engine value): for every outer program with a probe in an action or a condition x inner program x MaxCycle x probe invocation index j, the j-th probe invocation of the outer run starts a complete inner run (own instance, facts and data context) on the same (warm: it served a complete run before) *GruleEngine, under the first and last static rule order of either run; both traces are judged by the same engine model and compared with the scenario run on two separate engine values."
+	rep.Coverage["rule"] = "rule sets {never satisfied, fires n=1..3 times, loops forever (1 and 2 rules), Complete at firing n, action error at firing n, retract chain, mixed, failing condition, getter changed through a method and announced with Changed (also as second run on one data context)} x MaxCycle 0..5 (thorough 0..8) x 1..4 listeners (+ a listener-free differential run) x every rule order per cycle. Oracle: the engine model followed along the observed trace decides, per cycle, whether the run must continue, fire, end with nil, with the limit error or with an action error; per-listener protocol automaton (consecutive numbering, each active rule exactly once, <=1 execution of a same-cycle candidate). Termination horizon is a callback count, not a clock. Non-trivial: a run that reaches the budget boundary with candidates left. Third family (interrupted runs): every rule set under every static order with the context ending (Canceled / DeadlineExceeded) at every poll index: reported statuses stay truthful unless the run ends with the context's error, nil only at real quiescence, an announced execution runs its actions. Second family (overlapping runs on ONE engine value): for every outer program with a probe in an action or a condition x inner program x MaxCycle x probe invocation index j, the j-th probe invocation of the outer run starts a complete inner run (own instance, facts and data context) on the same (warm: it served a complete run before) *GruleEngine, under the first and last static rule order of either run; both traces are judged by the same engine model and compared with the scenario run on two separate engine values."
 }
 
 // c06Interrupted: the same rule sets under a context that ends (cancelled / deadline passed) at EVERY poll index of
